@@ -242,8 +242,10 @@ def r3_identity(P, rep, ctx):
     hstore = [n.idx for n in g.nodes if n.kind == "stmt" and any(norm(t) == f"{ubv}.hdf5_hashsum" for k, t in store_targets(n.stmt))]
     ok = bool(hs) and bool(hstore) and all(g.every_path_passes(hs, s) for s in hstore) and all(g.every_path_passes(hstore, s) for s in sv if s is not None)
     rep.check(ok, "C05.R3", fi.qual, "hash < store into merged block < save", fi.loc(), construct="hash/store/save order in merge_files", message="merge_files saves the merged user block before (or without) storing the payload hash")
+    f3 = F(ctx, fi)
+    fresh_ = {norm(it.optional_vars) for n_ in f3.g.nodes if n_.kind == "with" for it in n_.stmt.items if it.optional_vars is not None and isinstance(it.context_expr, ast.Call) and norm(it.context_expr.func) in ("cls", "type(self)", "self.__class__")}
     cf = [norm(v) for k, v in defs.get(norm(saves[0].args[0]), []) if v is not None]
-    rep.check(cf == ["ds.ih5_files[0]"], "C05.R3", fi.qual, "the saved file is the (single) container of the fresh target record", fi.loc(), construct=f"cfile = {cf}", message=f"the user block is saved into {cf}")
+    rep.check(len(cf) == 1 and cf[0] in {f"{d_}.ih5_files[0]" for d_ in fresh_}, "C05.R3", fi.qual, "the saved file is the (single) container of the fresh target record", fi.loc(), construct="saved file = container of the fresh record", message=f"the user block is saved into {cf}")
     rets = [norm(x.value) for x in walk_local(fi.node) if isinstance(x, ast.Return)]
     rep.check(rets == [norm(saves[0].args[0])], "C05.R3", fi.qual, "merge_files returns the merged container path", fi.loc(), construct="return", message=f"merge_files returns {rets}")
     hook = [n.idx for n in g.nodes if any(call_attr(c) == "_fixes_after_merge" for c in g.calls(n.idx))]
